@@ -28,6 +28,14 @@
 (*      QFU     the same with .for_update()          GFU(o,m)  T.get_for_update(id=o [,nowait|..]) *)
 (*      RC      set(P[1].items)  (Set.copy: LoadColl)     LC  len(P[1].items)                      *)
 (*      F       flush()              C  leave the db_session (commit)       X  rollback()          *)
+(*      CM      commit() and go on in the same db_session: flush, COMMIT, lock released,           *)
+(*              cache.for_update cleared, cache.immediate = True (SessionCache.commit) - every     *)
+(*              later query of the session opens an immediate transaction; objects, read bits and  *)
+(*              dbvals survive, so what the program saw stays protected across the commit         *)
+(*      QR(x)   select(t for t in T if t.x > n)[:]: Q whose condition uses attribute x - the       *)
+(*              attribute counts as read on every object returned (_fetch_objects -> _set_rbits;   *)
+(*              the binding also issues it on a base entity with x declared in a subclass)         *)
+(*      GFU with m = "bykey": T.get_for_update(u=key) by a unique non-pk attribute (same meaning)  *)
 (*    Session 1 may be given its own alphabet and modes (OpSet1/Modes1 vs OpSetN/ModesN): one     *)
 (*    reader or locker against writers, or symmetric sessions when the sets are equal.             *)
 (*    Every operation that reaches the database first flushes pending changes                      *)
@@ -85,7 +93,7 @@ VARIABLES kind,                 \* kind[x] of the attributes (fixed in the initi
           row, exists,          \* committed database
           txrow, txexists,      \* working copy of the lock holder (= committed when nobody holds the lock)
           lockHolder, waiting,  \* provider.transaction_lock / FIFO of blocked acquirers
-          mode, pc, result, pending,
+          mode, imm, touched, pc, result, pending,  \* imm = cache.immediate; touched = the session's cache exists
           status, dbval, val, rbits, wbits, notLoaded, forUpdate, collItems, collFull,
           seen, collSeen, written, locked, applied,
           ev
@@ -100,7 +108,7 @@ LinkA      == CHOOSE x \in LinkAttrs : TRUE
 InitRowFor(k) == [o \in Objs |-> [x \in Attrs |-> IF k[x] = "link" /\ o = 1 THEN 1 ELSE 0]]
 
 dbvars   == <<row, exists, txrow, txexists, lockHolder, waiting>>
-sessvars == <<kind, mode, pc, result, pending, status, dbval, val, rbits, wbits, notLoaded, forUpdate, collItems, collFull>>
+sessvars == <<kind, mode, imm, touched, pc, result, pending, status, dbval, val, rbits, wbits, notLoaded, forUpdate, collItems, collFull>>
 ghosts   == <<seen, collSeen, written, locked, applied>>
 vars     == <<dbvars, sessvars, ghosts, ev>>
 
@@ -110,10 +118,11 @@ Op(k, o, x, m) == [k |-> k, o |-> o, x |-> x, m |-> m]
 AllProgOps ==
     {op \in    {Op("R", o, x, "-") : o \in Objs, x \in Attrs}
           \cup {Op("W", o, x, "-") : o \in Objs, x \in Attrs}
+          \cup {Op("QR", 0, x, "-") : x \in Attrs}
           \cup {Op("D", o, "-", "-") : o \in Objs}
           \cup {Op("GFU", o, "-", m) : o \in Objs, m \in LockModes}
           \cup {Op("QFU", 0, "-", m) : m \in LockModes}
-          \cup {Op(k, 0, "-", "-") : k \in {"Q", "RC", "LC", "F"}} : op.k \in OpSet1 \cup OpSetN}
+          \cup {Op(k, 0, "-", "-") : k \in {"Q", "RC", "LC", "F", "CM"}} : op.k \in OpSet1 \cup OpSetN}
 OpSetOf(s) == IF s = 1 THEN OpSet1 ELSE OpSetN
 ModesOf(s) == IF s = 1 THEN Modes1 ELSE ModesN
 ProgOps(s) == {op \in AllProgOps : op.k \in OpSetOf(s)}
@@ -139,20 +148,21 @@ OptSession(s) == mode[s] # "ser"
 HitsDb(S, op) ==
     CASE op.k = "R"             -> S.st[op.o] = "none" \/ op.x \in S.nl[op.o]   \* Attribute.load -> obj._load_()
       [] op.k \in {"W", "D"}      -> S.st[op.o] = "none"
-      [] op.k \in {"Q", "QFU"}    -> TRUE
+      [] op.k \in {"Q", "QFU", "QR"} -> TRUE
       [] op.k = "GFU"             -> op.o \notin S.fu      \* _find_in_cache_: found but not locked => query
       [] op.k \in {"RC", "LC"}    -> ~S.cf                 \* Set.load unless fully loaded
       [] OTHER                    -> FALSE
-Flushes(S, op) == IsModified(S) /\ (HitsDb(S, op) \/ op.k \in {"F", "C"})
+Flushes(S, op) == IsModified(S) /\ (HitsDb(S, op) \/ op.k \in {"F", "C", "CM"})
 (* TryBegin: the operation has to open the write transaction (acquire_lock + BEGIN IMMEDIATE) *)
 NeedsLock(s, S, op) ==
     /\ ~InTxn(s)
     /\ \/ Flushes(S, op)
-       \/ HitsDb(S, op) /\ (mode[s] # "opt" \/ op.k \in {"GFU", "QFU"})
+       \/ HitsDb(S, op) /\ (imm[s] \/ op.k \in {"GFU", "QFU"})
 
 OpEnabled(S, op) ==
     CASE op.k \in {"R", "W", "D", "GFU"} -> ~Gone(S, op.o)   \* the program does not touch what it deleted itself
       [] op.k \in {"RC", "LC"}          -> HasLink
+      [] op.k = "QR"                    -> Kind[op.x] # "link"
       [] OTHER                          -> TRUE
 
 (* ----------------------------------------- flush --------------------------------------------- *)
@@ -179,7 +189,7 @@ FlushRecs(S, D, s) ==
     {[s |-> s, o |-> o, kind |-> IF o \in ModObjs(S) THEN "upd" ELSE "del", before |-> D.row[o],
       know |-> seen[s][o], own |-> written[s][o],
       lockedBy |-> {t \in Sessions \ {s} : result[t] = "running" /\ o \in locked[t]},
-      committed |-> FALSE] :
+      committed |-> FALSE, early |-> FALSE] :
         o \in {p \in ModObjs(S) : Matches(S, D, s, p)} \cup {p \in DelObjs(S) : D.ex[p]}}
 
 (* ------------------------------- delivery of rows (Entity._db_set_) -------------------------- *)
@@ -215,19 +225,23 @@ DeliverAll(S, T, D, fu) ==
 
 Targets(S, D, op) ==
     CASE op.k \in {"R", "W", "D", "GFU"} -> IF HitsDb(S, op) /\ D.ex[op.o] THEN {op.o} ELSE {}
-      [] op.k \in {"Q", "QFU"}           -> {o \in Objs : D.ex[o]}
+      [] op.k \in {"Q", "QFU", "QR"}     -> {o \in Objs : D.ex[o]}
       [] op.k \in {"RC", "LC"}           -> IF HitsDb(S, op) THEN {o \in Objs : D.ex[o] /\ D.row[o][LinkA] = 1} ELSE {}
       [] OTHER                           -> {}
 
 (* ------------------------------ the part that runs in Python only ---------------------------- *)
 WriteVal(s, S, op) == IF Kind[op.x] = "link" THEN 1 - S.v[op.o][op.x] ELSE s
-Py(s, S, op) ==
+Py(s, S, D, op) ==
     CASE op.k = "R" -> [S EXCEPT !.rb[op.o] = IF op.x \notin S.wb[op.o] /\ Tracked(op.x) THEN @ \cup {op.x} ELSE @]
       [] op.k = "W" -> [S EXCEPT !.st[op.o] = "modified", !.wb[op.o] = @ \cup {op.x}, !.nl[op.o] = @ \ {op.x},
                                  !.v[op.o][op.x] = WriteVal(s, S, op),
                                  !.ci = IF Kind[op.x] # "link" THEN @
                                         ELSE IF WriteVal(s, S, op) = 1 THEN @ \cup {op.o} ELSE @ \ {op.o}]
       [] op.k = "D" -> [S EXCEPT !.st[op.o] = "marked", !.ci = @ \ {op.o}]
+      [] op.k = "QR" -> [S EXCEPT !.rb = [o \in Objs |-> IF D.ex[o] /\ S.st[o] \in {"loaded", "modified"} /\ Tracked(op.x)
+                                                                /\ op.x \notin S.wb[o]
+                                                             THEN S.rb[o] \cup {op.x} ELSE S.rb[o]]]
+      [] op.k = "CM" -> [S EXCEPT !.fu = {}]
       [] op.k = "RC" -> [S EXCEPT !.rb = [o \in Objs |-> IF o \in S.ci /\ LinkA \notin S.wb[o] THEN S.rb[o] \cup {LinkA} ELSE S.rb[o]]]
       [] OTHER -> S
 
@@ -239,6 +253,8 @@ Init ==
     /\ txrow = row /\ txexists = [o \in Objs |-> TRUE]
     /\ lockHolder = 0 /\ waiting = <<>>
     /\ mode \in {f \in [Sessions -> Modes1 \cup ModesN] : \A s \in Sessions : f[s] \in ModesOf(s)}
+    /\ imm = [s \in Sessions |-> mode[s] # "opt"]
+    /\ touched = [s \in Sessions |-> FALSE]
     /\ pc = [s \in Sessions |-> 0]
     /\ result = [s \in Sessions |-> "running"]
     /\ pending = [s \in Sessions |-> NoOp]
@@ -290,7 +306,7 @@ Exec(s, op, how) ==
     \E S2 \in {IF op.k \in {"RC", "LC"} THEN [S2a EXCEPT !.cf = TRUE] ELSE S2a} :
     \* T.get(id=o) returned None / _find_in_db_ of get_for_update found no row (even if o is cached)
     \E none \in {(op.k \in {"R", "W", "D"} /\ S2.st[op.o] = "none") \/ (op.k = "GFU" /\ HitsDb(S0, op) /\ ~D1.ex[op.o])} :
-    \E S3 \in {IF none \/ ffail \/ dfail THEN S2 ELSE Py(s, S2, op)} :
+    \E S3 \in {IF none \/ ffail \/ dfail THEN S2 ELSE Py(s, S2, D1, op)} :
     \E out \in {IF ffail THEN "optimistic_error" ELSE IF dfail THEN "unrepeatable_error"
                  ELSE IF none THEN "none" ELSE "ok"} :
     \E live \in {{o \in T : ~Gone(S1, o)}} :
@@ -299,7 +315,7 @@ Exec(s, op, how) ==
                    [] op.k = "LC" -> Cardinality(S2.ci)
                    [] OTHER -> 0} :
     \E rets \in {CASE out # "ok" -> {}
-                   [] op.k \in {"Q", "QFU"} -> live
+                   [] op.k \in {"Q", "QFU", "QR"} -> live
                    [] op.k = "RC" -> S2.ci
                    [] OTHER -> {}} :
     \E mine \in {{r \in applied : r.s = s}} :
@@ -307,6 +323,9 @@ Exec(s, op, how) ==
     /\ ev' = [s |-> s, k |-> op.k, o |-> op.o, x |-> op.x, m |-> op.m, step |-> how, out |-> out,
               why |-> IF out = "unrepeatable_error" THEN (IF gone THEN "object_disappeared" ELSE Why(S1, T, D1)) ELSE "-", retv |-> retv, rets |-> rets]
     /\ UNCHANGED <<mode, kind>>
+    \* commit() sets cache.immediate only if the session has a cache already (it has none before its first entity operation)
+    /\ imm' = IF op.k = "CM" /\ out = "ok" /\ touched[s] THEN [imm EXCEPT ![s] = TRUE] ELSE imm
+    /\ touched' = IF op.k \in {"F", "CM", "C", "X"} THEN touched ELSE [touched EXCEPT ![s] = TRUE]
     /\ IF out \in {"optimistic_error", "unrepeatable_error"}
        THEN \* the exception leaves the db_session: rollback, lock released
             /\ EndSession(s, out, D0, FALSE, hold)
@@ -320,6 +339,15 @@ Exec(s, op, how) ==
        THEN /\ EndSession(s, "aborted", D0, FALSE, hold)
             /\ lockHolder' = IF hold THEN 0 ELSE lockHolder
             /\ applied' = applied \ {r \in mine : ~r.committed}
+       ELSE IF op.k = "CM"
+       THEN \* commit() in the middle of the db_session: the transaction ends, the session and its cache go on
+            /\ SetSess(s, S3)
+            /\ UNCHANGED <<result, seen, collSeen, written>>
+            /\ IF hold THEN /\ row' = D1.row /\ exists' = D1.ex /\ txrow' = D1.row /\ txexists' = D1.ex
+                       ELSE UNCHANGED <<row, exists, txrow, txexists>>
+            /\ lockHolder' = IF hold THEN 0 ELSE lockHolder
+            /\ applied' = (applied \ mine) \cup {[r EXCEPT !.committed = TRUE, !.early = TRUE] : r \in mine \cup recs}
+            /\ locked' = [locked EXCEPT ![s] = {}]
        ELSE /\ SetSess(s, S3)
             /\ UNCHANGED <<result, row, exists>>
             /\ lockHolder' = IF hold THEN s ELSE lockHolder
@@ -329,6 +357,8 @@ Exec(s, op, how) ==
                           IF out # "ok" THEN @
                           ELSE IF op.k = "R" THEN [@ EXCEPT ![op.o][op.x] = IF @ = Unseen THEN retv ELSE @]
                           ELSE IF op.k = "W" THEN [@ EXCEPT ![op.o][op.x] = S3.v[op.o][op.x]]
+                          ELSE IF op.k = "QR" THEN [o \in Objs |-> IF o \in live /\ @[o][op.x] = Unseen
+                                                                   THEN [@[o] EXCEPT ![op.x] = S2.v[o][op.x]] ELSE @[o]]
                           ELSE @]
             /\ collSeen' = [collSeen EXCEPT ![s] =
                           IF out # "ok" THEN @
@@ -352,7 +382,7 @@ Step(s, op) ==
             /\ pending' = [pending EXCEPT ![s] = op]
             /\ ev' = [s |-> s, k |-> op.k, o |-> op.o, x |-> op.x, m |-> op.m, step |-> "run", out |-> "blocked",
                       why |-> "-", retv |-> 0, rets |-> {}]
-            /\ UNCHANGED <<row, exists, txrow, txexists, lockHolder, mode, kind, result, status, dbval, val, rbits, wbits,
+            /\ UNCHANGED <<row, exists, txrow, txexists, lockHolder, mode, imm, touched, kind, result, status, dbval, val, rbits, wbits,
                            notLoaded, forUpdate, collItems, collFull, ghosts>>
        ELSE /\ Exec(s, op, "run")
             /\ UNCHANGED <<waiting, pending>>
@@ -388,7 +418,7 @@ NoLostUpdate ==
     \A r \in applied : r.kind = "upd" =>
         \A x \in Attrs : (Optim(x) /\ r.know[x] # Unseen /\ x \notin r.own) => r.before[x] = r.know[x]
 FailedContributeNothing ==
-    \A r \in applied : r.committed => result[r.s] = "committed"
+    \A r \in applied : r.committed => (result[r.s] = "committed" \/ r.early)    \* early: committed by an explicit commit()
 
 (* C21: a read of a non-volatile attribute returns what the program saw first (or wrote itself); a
    fully loaded collection that was observed keeps its value (own changes applied). *)
